@@ -2,6 +2,7 @@ import Hertz.Proofs.Fs
 import Hertz.Proofs.FsTree
 import Hertz.Proofs.FsCache
 import Hertz.Proofs.FsCachePool
+import Hertz.Proofs.FsCacheSrc
 /-!
 # C08 — static file responses return exactly the requested bytes
 
@@ -304,7 +305,7 @@ theorem live_reader_file_open (accept : Bool) (ops : List Op) (s : FsCache.State
     have := countFid_pos_of_mem hr
     rw [← e] at this; omega
 
-/-- A request that is answered without a body stream — 404, 403, 500 (the cached big file cannot be re-opened), 416, 304,
+/-- A request that is answered without a body stream — 404, 403, 500 (the cached big file cannot be re-opened, or its name denotes another file object by now), 416, 304,
 HEAD — leaves the readers in flight as they were, and every count still equal to their number: a failed open gives its
 reference back exactly once. -/
 theorem failed_open_leaves_counts_unchanged (accept : Bool) (ops : List Op) (s s' : FsCache.State) (a : Ans)
@@ -322,13 +323,13 @@ theorem failed_open_leaves_counts_unchanged (accept : Bool) (ops : List Op) (s s
 /-- non-vacuity: a 9000-byte file is being downloaded, is removed, and is requested again: 500, the count stays 1,
 the held reader stays; then the body is delivered and the cache cleaned: count 0, file released. -/
 example :
-    let ops : List Op := [.setNode 0 (.file ⟨1, 9000⟩ 1), .req 0 false none [], .setNode 0 .absent, .req 0 false none []]
+    let ops : List Op := [.setNode 0 (.file ⟨7, 1, 9000⟩ 1), .req 0 false none [], .setNode 0 .absent, .req 0 false none []]
     (run true {} ops).toOption.map (fun s => (s.objs.map (·.rc), s.live.map (·.rid), fds s)) = some ([1], [1], 2) ∧
     (run true {} (ops ++ [.close 1, .expire, .tick])).toOption.map
       (fun s => (s.objs.map (·.rc), s.objs.map (·.fileOpen), fds s)) = some ([0], [false], 0) := by decide
 /-- the fault is a real outcome of the model: the decrement of seed C08-m5, done twice for one request, panics -/
 example :
-    (match (decReadersCount 0 ⟨[⟨0, 0, false, ⟨1, 9000⟩, 1, 1, [], true, true, false, false⟩], [], 1, fun _ => .absent⟩).bind
+    (match (decReadersCount 0 ⟨[⟨0, 0, false, ⟨7, 1, 9000⟩, 1, 1, [], true, true, false, false⟩], [], 1, fun _ => .absent⟩).bind
         (decReadersCount 0) with
      | .error f => some f
      | .ok _ => none) = some FsCache.Fault.negativeCount := by decide
@@ -352,10 +353,39 @@ theorem reader_in_one_place (accept : Bool) (ops : List Op) (s : FsCache.State) 
 /-- non-vacuity: one download of a big file in flight (reader 1), a second one finished (reader 2, pooled); the next
 request takes reader 2 out of the pool again -/
 example :
-    let ops : List Op := [.setNode 0 (.file ⟨1, 9000⟩ 1), .req 0 false none [], .req 0 false none [], .close 2]
+    let ops : List Op := [.setNode 0 (.file ⟨7, 1, 9000⟩ 1), .req 0 false none [], .req 0 false none [], .close 2]
     (run true {} ops).toOption.map (fun s => (s.objs.map (fun o => o.pool.map (·.rid)), s.live.map (·.rid))) = some ([[2]], [1]) ∧
     (run true {} (ops ++ [.req 0 false none []])).toOption.map
       (fun s => (s.objs.map (fun o => o.pool.map (·.rid)), s.live.map (·.rid))) = some ([[]], [2, 1]) := by decide
+
+/-- **The re-opened file is the cached file**: in every reachable state every reader — held by a response or pooled —
+reads the very file object (identity, bytes, length) its `fsFile` was made from, i.e. the one the response headers
+(`Content-Length`, `Last-Modified`, `Content-Range`) describe; whatever was removed, replaced or recreated under that
+name in between.  For big files this rests on the `os.SameFile` check after `os.Open(ff.f.Name())` (commit 435a1ed). -/
+theorem reopened_file_is_cached_file (accept : Bool) (ops : List Op) (s : FsCache.State) (h : run accept {} ops = .ok s) :
+    (∀ r ∈ s.live, ∀ o ∈ s.objs, o.id = r.fid → r.src = .content o.c) ∧
+    (∀ o ∈ s.objs, ∀ p ∈ o.pool, p.src = .content o.c) :=
+  have hs := S_run accept ops S_init h
+  ⟨fun r hr => (hs.live r hr).1, hs.pool⟩
+
+/-- regression example (the former witness of finding C08-reopen-by-name): a 9000-byte file is being downloaded, another
+file object of 8193 bytes is renamed over it, the name is requested again.  The request is answered 500 — before the repair:
+200, Content-Length 9000 and the 8193 bytes of the other file —, the count stays 1, the held reader stays and still reads
+the first file object; no reader of the second object exists. -/
+example :
+    let ops : List Op := [.setNode 0 (.file ⟨7, 1, 9000⟩ 2), .req 0 false none [], .setNode 0 (.file ⟨8, 2, 8193⟩ 2)]
+    ((run true {} ops).toOption.bind fun s => (handleRequest true 0 false none [] s).toOption.map
+      (fun p => (p.2.status, p.2.rid, p.1.objs.map (·.rc), fds p.1))) = some (500, none, [1], 2) ∧
+    ((run true {} ops).toOption.bind fun s => (handleRequest true 0 false none [] s).toOption.map
+      (fun p => p.1.live.map (fun r => (r.rid, r.src)))) = some [(1, .content ⟨7, 1, 9000⟩)] := by decide
+/-- the same name replaced by a directory, and by the SAME file object renamed away and back: 500, and 200 from that object -/
+example :
+    let ops : List Op := [.setNode 0 (.file ⟨7, 1, 9000⟩ 2), .req 0 false none []]
+    ((run true {} (ops ++ [.setNode 0 (.dir none)])).toOption.bind fun s =>
+      (handleRequest true 0 false none [] s).toOption.map (fun p => p.2.status)) = some 500 ∧
+    ((run true {} (ops ++ [.setNode 0 .absent, .setNode 0 (.file ⟨7, 1, 9000⟩ 2)])).toOption.bind fun s =>
+      (handleRequest true 0 false none [] s).toOption.map (fun p => (p.2.status, p.1.live.map (fun r => r.src))))
+      = some (200, [.content ⟨7, 1, 9000⟩, .content ⟨7, 1, 9000⟩]) := by decide
 
 /-- The Go source still touches `readersCount` exactly where the model does (`Hertz/Gen/Fs.lean`, regenerated on every
 run from ALL functions of `pkg/app/fs.go`): one increment per cache hit / insertion in `handleRequest`, one decrement in
@@ -374,10 +404,12 @@ theorem model_matches_gen_refcounts :
        ("cleanCacheNolock", ["if ff.readersCount > 0", "delete(cache, k)"])] ∧
     Gen.Fs.newReader = ["if ff.isBig()", "r, err := ff.bigFileReader()", "if err != nil", "ff.decReadersCount()",
                         "return r, err", "return ff.smallFileReader(), nil"] ∧
-    Gen.Fs.fsFileBigFileReader.length = 15 ∧ "f, err := os.Open(ff.f.Name())" ∈ Gen.Fs.fsFileBigFileReader ∧
+    Gen.Fs.fsFileBigFileReader.length = 23 ∧ "f, err := os.Open(ff.f.Name())" ∈ Gen.Fs.fsFileBigFileReader ∧
+    "if fi0, err = ff.f.Stat(); err == nil && !os.SameFile(fi0, fi)" ∈ Gen.Fs.fsFileBigFileReader ∧
+    Gen.Fs.fsFileBigFileReader.drop 19 = ["if err != nil", "f.Close()", "return nil, ERR", "return &bigFileReader{ f: f, ff: ff, r: f, }, nil"] ∧
     Gen.Fs.bigClose.length = 13 ∧ Gen.Fs.smallClose.length = 7 ∧ Gen.Fs.release.length = 6 ∧
     Gen.Fs.cleanCache.length = 13 ∧ Gen.Fs.cleanCacheNolock.length = 8 ∧ Gen.Fs.decReadersCount.length = 4 := by
-  refine ⟨rfl, rfl, rfl, by decide, rfl, rfl, rfl, rfl, rfl, rfl⟩
+  refine ⟨rfl, rfl, rfl, by decide, by decide, rfl, rfl, rfl, rfl, rfl, rfl, rfl⟩
 
 example : (Gen.Fs.rcSites.map (·.1)).length = 7 := by decide
 
